@@ -198,6 +198,80 @@ class CFG:
     def dominates(self, a, b):
         return a.id in self.dominators()[b.id]
 
+    def postdominators(self):
+        """Post-dominators w.r.t. the normal exit: pdom[n] = nodes every path
+        n -> exit passes through.  Nodes that cannot reach the normal exit
+        (they only raise) get the full set."""
+        if getattr(self, "_pdom", None) is not None:
+            return self._pdom
+        allids = set(n.id for n in self.nodes)
+        pdom = {n.id: set(allids) for n in self.nodes}
+        pdom[self.exit.id] = {self.exit.id}
+        changed = True
+        while changed:
+            changed = False
+            for n in reversed(self.nodes):
+                if n is self.exit:
+                    continue
+                succs = [s for s, _ in n.succ if s is not self.raise_exit]
+                succs = [s for s in succs]
+                if not succs:
+                    new = set(allids) if n is not self.raise_exit else {n.id}
+                    if n.succ and all(s is self.raise_exit for s, _ in n.succ):
+                        new = set(allids)
+                else:
+                    new = set.intersection(*(pdom[s.id] for s in succs)) | {n.id}
+                if new != pdom[n.id]:
+                    pdom[n.id] = new
+                    changed = True
+        self._pdom = pdom
+        return pdom
+
+    def postdominates(self, a, b):
+        """Every path from b to the normal exit passes through a."""
+        return a.id in self.postdominators()[b.id]
+
+    def all_paths_pass(self, pred):
+        """True when every entry->exit path contains a node satisfying pred."""
+        seen = set()
+        stack = [self.entry]
+        while stack:
+            n = stack.pop()
+            if n.id in seen:
+                continue
+            seen.add(n.id)
+            if n is self.exit:
+                return False
+            if n is not self.entry and pred(n):
+                continue
+            for s, _ in n.succ:
+                stack.append(s)
+        return True
+
+    def path_avoiding(self, pred, start=None):
+        """A list of nodes entry->exit that avoids every node satisfying pred,
+        or None."""
+        start = start or self.entry
+        prev = {start.id: None}
+        stack = [start]
+        while stack:
+            n = stack.pop()
+            if n is self.exit:
+                out = []
+                cur = n
+                while cur is not None:
+                    out.append(cur)
+                    cur = prev[cur.id]
+                return list(reversed(out))
+            for s, _ in n.succ:
+                if s.id in prev:
+                    continue
+                if s is not self.exit and pred(s):
+                    continue
+                prev[s.id] = n
+                stack.append(s)
+        return None
+
     def reachable(self):
         seen = {self.entry.id}
         stack = [self.entry]
